@@ -527,6 +527,12 @@ def run_shared(ctx, jinja2, only=None):
     # the same histories on the other backends / options: memcached client with a prefix and a timeout ("clear" = the
     # client loses its entries), a FileSystemBytecodeCache with a custom pattern
     backend = ["fs"] * len(cases)
+    # both caches composed: every environment also has a small template cache and auto_reload (same option set, so the
+    # expected text does not depend on which cache answered)
+    hist4 = [list(h) for n in range(1, 5) for h in itertools.product(ops_alpha, repeat=n)]
+    tc_cases = [(p, h) for p in ((0, 0), (1, 1)) for h in hist4 if sum(o.startswith("l:") for o in h) >= 2]
+    cases += tc_cases
+    backend += ["tcache"] * len(tc_cases)
     for bk in ("mem", "fspat", "overlay"):
         # "overlay": the second environment is env0.overlay(autoescape=True), which inherits env0's bytecode_cache
         extra_cases = [(p, h) for p in (((0, 0), (0, 1)) if bk != "overlay" else ((0, 1),)) for h in hist if len(h) <= 3]
@@ -573,6 +579,10 @@ def run_shared(ctx, jinja2, only=None):
             bcc = FileSystemBytecodeCache(d)
         loader = jinja2.DictLoader(mapping)
         envs = [make_env(jinja2, p[0], loader, bcc), make_env(jinja2, p[1], loader, bcc)]
+        if bk == "tcache":
+            for e_ in envs:
+                e_.cache = jinja2.environment.create_cache(1)
+                e_.auto_reload = True
         if bk == "overlay":
             envs[1] = envs[0].overlay(autoescape=True)
         cur = 7
@@ -961,6 +971,8 @@ CONFLATE = {
     "line-boundary": ["\n", "\r\n", "\r", "\u2028", "\u2029", "\x0b", "\x0c", "\x1c", "\x1d", "\x1e", "\x85", " "],
     "trailing-newline": ["", "\n", "\n\n", "\r\n"],
     "surrogate": ["\ud800", "\udfff", "\udc80", "?", "\ufffd"],
+    # how each codec error handler would spell a character UTF-8 cannot encode (strict raises; surrogatepass keeps it)
+    "codec-error-spelling": ["\udce9", "\\udce9", "&#56553;", "?", "", "\ufffd", "\\xe9", "\xe9", "\\N{LATIN SMALL LETTER E WITH ACUTE}"],
     "nul-bom-zero-width": ["", "\x00", "\ufeff", "\u200b", "\u00ad"],
     "case": ["a", "A", "\u0131", "I"],
     "whitespace": [" ", "  ", "\t", "\u00a0", "\u3000", ""],
@@ -995,7 +1007,7 @@ def run_conflate(ctx, jinja2, only=None):
                 if cls == "trailing-newline":
                     old, new = "x{{ 1 }}" + a, "x{{ 1 }}" + b
                 else:
-                    old, new = "[{{ '" + a.replace("\\", "") + "'|length }}" + a + "]", "[{{ '" + b.replace("\\", "") + "'|length }}" + b + "]"
+                    old, new = "[" + a + "]{{ 1 }}", "[" + b + "]{{ 1 }}"       # the two sources differ in nothing else
                 shutil.rmtree(d, ignore_errors=True)
                 os.makedirs(d)
                 client = Client()
